@@ -28,6 +28,7 @@ OPS = {
         pre=["{a} >= 0"],
         code=["cp = H.deep_copy(ll)", "if cp[{a}] != (src[{a} % len(src)] if len(src) else 0): return explain('copy_idx', {a})"],
     ),
+    "copy_late": dict(pre=[], code=["cp = H.deep_copy(ll)", "if len(ll) != len(src): return explain('len')", "if list(cp) != src: return explain('copy read after the original was evaluated further')"]),
     "has_ind": dict(pre=[], code=["if bool(ll.has_ind({a})) != (0 <= {a} < len(src)): return explain('has_ind', {a})"]),
     "listify": dict(pre=[], code=["if ll.listify() != src: return explain('listify')"]),
 }
